@@ -43,6 +43,9 @@ struct Exec {
     /// pushed for it (its reply is <ok/>, which cannot carry a tag)
     close_abs: Option<u64>,
     close_tags: Vec<u64>,
+    /// content besides the tag in the reply being pushed; whether any reply of this case carried some
+    pad: usize,
+    big_replies: bool,
     futs: BTreeMap<u64, ReplyFut>,
     done: BTreeMap<u64, Value>,
     dropped: Vec<u64>,
@@ -214,6 +217,8 @@ impl Exec {
             caller_busy: false,
             close_abs: None,
             close_tags: Vec::new(),
+            pad: 0,
+            big_replies: false,
             futs: BTreeMap::new(),
             done: BTreeMap::new(),
             dropped: Vec::new(),
@@ -268,6 +273,10 @@ impl Exec {
             return format!("<rpc-reply message-id=\"{id}\" xmlns=\"{BASE_NS}\"><ok/></rpc-reply>{EOM}");
         }
         let id = self.real_id(id);
+        if self.pad > 0 {
+            let filler = "<interface><name>ge-0/0/0</name><unit>0</unit></interface>".repeat(self.pad / 58 + 1);
+            return format!("<rpc-reply message-id=\"{id}\" xmlns=\"{BASE_NS}\"><data>T{tag}<pad>{filler}</pad></data></rpc-reply>{EOM}");
+        }
         format!(
             "<rpc-reply message-id=\"{id}\" xmlns=\"{BASE_NS}\"><data>T{tag}</data></rpc-reply>{EOM}"
         )
@@ -292,7 +301,9 @@ impl Exec {
                 let v = match r {
                     Ok(s) => {
                         let s = if s == "CLOSED" { format!("T{}", self.close_tags.first().copied().unwrap_or(0)) } else { s };
-                        let tag: u64 = s.trim_start_matches('T').parse().unwrap_or(0);
+                        let digits: String = s.trim_start_matches('T').chars().take_while(|c| c.is_ascii_digit()).collect();
+                        let s = if s.len() > 200 { format!("T{digits}(+{} bytes)", s.len()) } else { s };
+                        let tag: u64 = digits.parse().unwrap_or(0);
                         json!({"state": "ok", "tag": tag, "raw": s})
                     }
                     Err(e) => json!({"state": "err", "err": err_class(&e)}),
@@ -348,7 +359,14 @@ impl Exec {
                     self.answered.push(id);
                 }
                 ev["id"] = json!(id);
+                // "pad": the reply carries that many bytes of content besides its tag (a configuration of some size)
+                self.pad = c["pad"].as_u64().unwrap_or(0) as usize;
+                if self.pad > 0 {
+                    ev["pad"] = json!(self.pad);
+                    self.big_replies = true;
+                }
                 ev["tag"] = json!(self.push_reply(id));
+                self.pad = 0;
             }
             "badbody" => {
                 // header intact, body not well-formed: belongs to `id`, only its caller may see the error
@@ -473,6 +491,21 @@ impl Exec {
             } else {
                 idle_rounds += 1;
                 if idle_rounds > self.futs.len() + 2 {
+                    break;
+                }
+            }
+        }
+        // a library may hand a big message to another thread: before a future is reported as left waiting, give such
+        // work real time to come back
+        if self.big_replies && !self.futs.is_empty() {
+            for _ in 0..10 {
+                std::thread::sleep(std::time::Duration::from_millis(20));
+                let ids: Vec<u64> = self.futs.keys().copied().collect();
+                for t in ids {
+                    let e = self.exec(&json!({"c": "poll", "t": t}));
+                    emit(e);
+                }
+                if self.futs.is_empty() {
                     break;
                 }
             }
@@ -619,7 +652,12 @@ fn random_case(
             } else {
                 let i = cand[rng.gen_range(0..cand.len())];
                 answered.push(i);
-                Some(json!({"c": "reply", "id": i}))
+                // one reply in six is a big one (beyond 64 KiB / 256 KiB)
+                match rng.gen_range(0..12) {
+                    0 => Some(json!({"c": "reply", "id": i, "pad": 70_000})),
+                    1 => Some(json!({"c": "reply", "id": i, "pad": 300_000})),
+                    _ => Some(json!({"c": "reply", "id": i})),
+                }
             }
         } else if k < 82 {
             let m = ["free", "before", "after"][rng.gen_range(0..3)];
